@@ -46,7 +46,8 @@ type val struct {
 	lf   *big.Float // kLong
 	s    string     // kStr, kSym
 	c    rune       // kChar
-	e    []*val     // kList / kVec elements, kArr row-major elements
+	e    []*val     // kList / kVec elements, kArr row-major elements (read through Get(indexes) when converted from slip)
+	e2   []*val     // kArr converted from slip: the backing slice in storage order (Elements())
 	tail *val       // kList: non-nil => dotted
 	dims []int      // kArr
 }
@@ -477,6 +478,9 @@ func from(obj slip.Object, depth int) *val {
 		if 1<<16 < n {
 			panic("array too large")
 		}
+		for _, e := range t.Elements() {
+			out.e2 = append(out.e2, from(e, depth+1))
+		}
 		idx := make([]int, len(dims))
 		for i := 0; i < n; i++ {
 			out.e = append(out.e, from(t.Get(idx...), depth+1))
@@ -575,12 +579,24 @@ func diffAt(want, got *val, path string) (string, string) {
 		if fmt.Sprint(want.dims) != fmt.Sprint(got.dims) {
 			return "wrong-dimensions", at(fmt.Sprintf("expected dimensions %v, got %v", want.dims, got.dims))
 		}
+		if len(want.e) != len(got.e) || (got.e2 != nil && len(got.e2) != len(want.e)) {
+			return "wrong-length", at(fmt.Sprintf("expected %d array elements, got %d", len(want.e), len(got.e)))
+		}
+		// first the stored contents (storage order), then what the public
+		// accessor Get(i, j, ...) - i.e. aref - returns for every index tuple
+		if got.e2 != nil {
+			for i := range want.e {
+				if k, d := diffAt(want.e[i], got.e2[i], fmt.Sprintf("%s[storage %d]", path, i)); k != "" {
+					return k, d
+				}
+			}
+		}
 		for i := range want.e {
 			if k, d := diffAt(want.e[i], got.e[i], fmt.Sprintf("%s[row-major %d]", path, i)); k != "" {
-				if k == "wrong-value" || strings.HasPrefix(k, "wrong-type") {
-					k = "array-element-" + k
+				if got.e2 != nil {
+					return "array-indexing", fmt.Sprintf("stored elements are right but Get(indexes)/aref returns another element: %s (dims %v)", d, want.dims)
 				}
-				return k, d + fmt.Sprintf(" (array read through Get(indexes); dims %v)", want.dims)
+				return k, d
 			}
 		}
 	}
